@@ -53,7 +53,7 @@ SQLArgs = Sequence[Any] | Mapping[str, Any]
 
 
 def prefix_clause(column: str, prefix: str) -> tuple[str, str]:
-    """Build a LIKE predicate and its argument for matching a column against a prefix.
+    """Build a predicate and its argument for matching a column against a prefix.
 
     Parameters
     ----------
@@ -62,7 +62,6 @@ def prefix_clause(column: str, prefix: str) -> tuple[str, str]:
         This must be a literal from the calling code, never user input.
     prefix
         The literal prefix to match.
-        Characters with a special meaning in LIKE patterns are escaped.
 
     Returns
     -------
@@ -73,11 +72,13 @@ def prefix_clause(column: str, prefix: str) -> tuple[str, str]:
 
     Notes
     -----
-    SQLite only honors the escape character when the query carries an `ESCAPE` clause,
-    so the predicate and its argument are built together and must be used together.
+    The leading characters of the column are compared with `=`,
+    which uses the (binary) collation of the column, so the match is exact.
+    `LIKE` is not suitable here: it ignores the case of ASCII letters,
+    and `%`, `_` and the escape character would need escaping.
+    The predicate and its argument are built together and must be used together.
     """
-    escaped = prefix.replace("\\", "\\\\").replace("%", "\\%").replace("_", "\\_")
-    return f"{column} LIKE ? ESCAPE '\\'", f"{escaped}%"
+    return f"substr({column}, 1, {len(prefix):d}) = ?", prefix
 
 
 #
